@@ -15,7 +15,7 @@ nodir          (none)                -F<k>=nd/sub/x.<k> with nd missing: the dri
 import os
 import shutil
 
-from driver_trace import KINDS, default_out_path, named_out_path, run_traced
+from driver_trace import KINDS, KINDS_ALL, default_out_path, named_out_path, run_traced
 
 PROGRAMS = {
     "fact": """#include "axllib"
@@ -116,7 +116,7 @@ class Case(object):
 
     def __init__(self, progs, kinds, faults, tag=""):
         self.progs = list(progs)            # program names, in command-line order
-        self.kinds = [k for k in KINDS if k in kinds]
+        self.kinds = [k for k in KINDS_ALL if k in kinds]
         self.faults = dict(faults)          # {(file, kind): fault source}
         self.tag = tag
 
@@ -132,7 +132,7 @@ class Case(object):
         pre, args, wrap = [], [], []
         base = self.progs[0]
         for k in self.kinds:
-            a = "-F" + k
+            a = "-F" + k if k != "h" else "-Csmax=1"
             for (f, kk), s in self.faults.items():
                 if kk == k and s == "notdir":
                     a = "-F%s=blk/x.%s" % (k, ext(k))
@@ -269,6 +269,18 @@ def plan(tier, rng, extra_programs=()):
                     sub = sorted(set([k] + rng.sample(allk, 3)))
                     add([p], sub, {(f, k): s})
             i += 1
+    # (1b) the C output split into several files (-Csmax=1): the common header <unit>.h is one more output that is due,
+    #      written to the current directory and closed last; faults on the header, and on the first C file of a split unit
+    for s in ("enospc", "enospc1", "closefail", "dir", "devfull"):
+        for rep in range(nrep):
+            p = singles[(i + rep) % len(singles)]
+            add([p], ["c", "h"], {(1, "h"): s}, "split")
+            if s != "devfull":
+                add([p], ["c", "h"], {(1, "c"): s}, "split")
+        add([singles[(i + 1) % len(singles)]], allk + ["h"], {(1, "h"): s}, "split")
+        i += 1
+    add(["pairA", "pairB"], ["c", "h", "main"], {(2, "h"): "closefail"}, "split")
+    add(["pairA", "pairB"], ["c", "h"], {(1, "h"): "closefail", (2, "c"): "closefail"}, "split")
     # (2) pairs of kinds, each with its own fault source (strace sources: one syscall class per run)
     pairs = [(a, b) for ai, a in enumerate(KINDS) for b in KINDS[ai + 1:]]
     srcpairs = []
